@@ -77,11 +77,12 @@ impl Ctx {
 /// op code of a task: 1000 + 2*priority + stealable + 10000*behaviour
 /// behaviour 0 = returns at once, 1 = yields once, 2 = sleeps 1 ms, 3 = returns Err, 4 = yields 3 times,
 /// 5 = submits a child task (id = n + own id) to the same executor from inside the worker,
-/// 6 = counts itself, then panics
+/// 6 = counts itself, then panics (inside the future), 7 = counts itself, then panics in the synchronous part of `execute`
+/// (before a future exists)
 fn code_prio(c: i64) -> u8 { (((c % 10000) - 1000) / 2) as u8 }
 fn code_steal(c: i64) -> bool { ((c % 10000) - 1000) % 2 == 1 }
 fn code_beh(c: i64) -> u8 { (c / 10000) as u8 }
-fn is_task_code(c: i64) -> bool { c % 10000 >= 1000 && c % 10000 < 1512 && c >= 0 && c < 70000 }
+fn is_task_code(c: i64) -> bool { c % 10000 >= 1000 && c % 10000 < 1512 && c >= 0 && c < 80000 }
 
 struct CountTask {
     id: usize,
@@ -94,6 +95,7 @@ struct CountTask {
 }
 impl Task for CountTask {
     fn execute(self: Box<Self>) -> Pin<Box<dyn Future<Output = ZResult<()>> + Send>> {
+        if self.beh == 7 { self.counters[self.id].fetch_add(1, Ordering::SeqCst); panic!("task panicked before returning its future"); }
         Box::pin(async move {
             match self.beh {
                 1 => tokio::task::yield_now().await,
@@ -131,7 +133,7 @@ fn rand_code(r: &mut Rng, prio_mix: u64, beh_mix: bool) -> i64 {
         _ => *r.pick(&[0u64, 1, 2, 127, 254, 255]),
     };
     let steal = if r.chance(3, 4) { 1 } else { 0 };
-    let beh = if beh_mix { *r.pick(&[0u64, 0, 0, 0, 1, 2, 3, 4, 5, 0, 1, 2, 3, 4, 5, 6]) } else { 0 };
+    let beh = if beh_mix { *r.pick(&[0u64, 0, 0, 0, 1, 2, 3, 4, 5, 0, 1, 2, 3, 4, 5, 6, 7]) } else { 0 };
     (1000 + 2 * prio + steal + 10000 * beh) as i64
 }
 
@@ -948,6 +950,19 @@ impl PipelineStage<i64, i64> for SlowStage {
     fn name(&self) -> &str { "slow" }
     fn supports_batching(&self) -> bool { self.batching }
 }
+/// A stage that declares room for several items at once and whose items really suspend, for a number of polls that depends on
+/// the item (so that later items can finish before earlier ones): the batch result must still be in input order
+struct ConcStage { conc: usize }
+impl PipelineStage<i64, i64> for ConcStage {
+    fn process(&self, x: i64) -> Pin<Box<dyn Future<Output = ZResult<i64>> + Send + '_>> {
+        Box::pin(async move {
+            for _ in 0..(4 - x.rem_euclid(5)) { tokio::task::yield_now().await; }
+            stage(x)
+        })
+    }
+    fn name(&self) -> &str { "conc" }
+    fn max_concurrency(&self) -> usize { self.conc }
+}
 fn seq_map_slow(xs: &[i64]) -> Option<Vec<i64>> {
     if xs.iter().any(|x| x.rem_euclid(32) == 7) { return None; }
     seq_map(xs, false)
@@ -971,7 +986,7 @@ fn batch_case(cx: &mut Ctx, which: u64, enable_batching: bool, xs: &[i64], force
         tokio::time::timeout(HANG, async move {
             let mut cfg = PipelineConfig::default();
             cfg.enable_batching = enable_batching;
-            if which >= 3 { cfg.stage_timeout = Duration::from_millis(8); }
+            if which == 3 || which == 4 { cfg.stage_timeout = Duration::from_millis(8); }
             let p = Pipeline::new(cfg);
             type Fb = fn(Vec<i64>) -> ZResult<Vec<i64>>;
             let res = match which {
@@ -980,13 +995,14 @@ fn batch_case(cx: &mut Ctx, which: u64, enable_batching: bool, xs: &[i64], force
                 2 => p.process_batch(BatchMapStage::with_batch_support("bb".to_string(), stage,
                         |b: Vec<i64>| -> ZResult<Vec<i64>> { b.into_iter().map(stage).collect() }), xv).await,
                 3 => p.process_batch(SlowStage { batching: false }, xv).await,
-                _ => p.process_batch(SlowStage { batching: true }, xv).await,
+                4 => p.process_batch(SlowStage { batching: true }, xv).await,
+                w => p.process_batch(ConcStage { conc: [2usize, 4, 8, 64][(w as usize - 5) % 4] }, xv).await,
             };
             let st = p.stats().await;
             (res, st.items_in_flight as i64, st.total_processed as i64)
         }).await
     }));
-    let want = if which >= 3 { seq_map_slow(xs) } else { seq_map(xs, false) };
+    let want = if which == 3 || which == 4 { seq_map_slow(xs) } else { seq_map(xs, false) };
     match r {
         Err(p) => cx.sum.fail(cell, None, case, &format!("panicked: {}", p)),
         Ok(Err(_)) => cx.sum.fail(cell, None, case, "did not return (8 s; 0.7 s when the limit is 0)"),
@@ -1002,7 +1018,8 @@ fn batch_case(cx: &mut Ctx, which: u64, enable_batching: bool, xs: &[i64], force
             obs.push(-7);
             obs.push(in_flight);
             obs.push(processed);
-            cx.coq(12, path, (if which >= 3 { 1 } else { 0 }) + (if which < 3 { 2 } else { 0 }), xs, &obs, &case, force);
+            // (the stages with declared concurrency, which >= 5, are oracle-only)
+            if which < 5 { cx.coq(12, path, (if which >= 3 { 1 } else { 0 }) + (if which < 3 { 2 } else { 0 }), xs, &obs, &case, force); }
             if got != want { cx.sum.fail(cell, None, case, &format!("returned {:?}, applying the stage in input order gives {:?}", got, want)); }
         }
     }
@@ -1374,7 +1391,7 @@ fn run_one(cx: &mut Ctx, c: &Value) {
             pool_hist_case(cx, u(&c["max_fibers"], 2).max(1) as usize, &ops, &ints(&c["gates"]), true)
         }
         "reduce" => reduce_case(cx, u(&c["which"], 0).min(1), u(&c["rt"], 0) as usize, u(&c["mw"], 2) as usize, &ops, true),
-        "process_batch" => batch_case(cx, u(&c["which"], 0).min(4), c["batching"].as_bool().unwrap_or(false), &ops, true),
+        "process_batch" => batch_case(cx, u(&c["which"], 0).min(8), c["batching"].as_bool().unwrap_or(false), &ops, true),
         "single" => single_case(cx, &ops),
         "stream" => stream_case(cx, u(&c["rt"], 0) as usize, u(&c["stages"], 1).max(1) as usize, u(&c["buffer"], 1) as usize, c["slow"].as_bool().unwrap_or(false),
                                 c["panics"].as_bool().unwrap_or(false), &ops),
@@ -1698,6 +1715,7 @@ pub fn run(args: &Args) {
                 let xs = rand_items(&mut r, n, fail);
                 cx.rng = r;
                 for which in 0..3u64 { for &b in &[false, true] { batch_case(&mut cx, which, b, &xs, false); } }
+                for which in 5..9u64 { batch_case(&mut cx, which, which % 2 == 0, &xs, false); }
                 for &rt in &[0usize, 2] {
                     for &(st, buf) in &[(1usize, 1usize), (2, 1), (3, 2), (2, 64), (2, 0)] { stream_case(&mut cx, rt, st, buf, false, false, &xs); }
                 }
